@@ -86,8 +86,8 @@ func (*ctrlEng) NonTrivial(c Case, _ []string) bool {
 func (e *ctrlEng) Exec(*testing.T, Case) []string { panic("ctrl is a Tracer engine") }
 
 const (
-	ctrlInType  = "CIn"
-	ctrlOutType = "COut"
+	ctrlInType   = "CIn"
+	ctrlOutType  = "COut"
 	ctrlOut2Type = "COut2"
 )
 
@@ -143,14 +143,14 @@ func (*COut) ResourceDefinition() meta.ResourceDefinitionSpec {
 
 // ctrlLog is the totally ordered write log.
 type ctrlLog struct {
-	mu    sync.Mutex
-	ops   []string
-	outs  []string
-	gate  chan struct{}
-	waits int
-	armed []Args      // one-shot reactive external operations (op `arm`), oldest first
-	env   *ctrlProxy  // the ungated proxy the armed operations go through
-	fired int
+	mu     sync.Mutex
+	ops    []string
+	outs   []string
+	gate   chan struct{}
+	waits  int
+	armed  []Args     // one-shot reactive external operations (op `arm`), oldest first
+	env    *ctrlProxy // the ungated proxy the armed operations go through
+	fired  int
 	faults *ctrlFaults
 }
 
